@@ -256,7 +256,8 @@ func (dev DeviceHinting) GetDelta(ppem uint16, scale int32) int32 {
 
 	pixels := dev.Values[ppem-dev.StartSize]
 
-	return int32(pixels) * (scale / int32(ppem))
+	// multiply first : the quotient scale / ppem is not an integer (and is zero for a scale smaller than ppem)
+	return int32(int64(pixels) * int64(scale) / int64(ppem))
 }
 
 // -------------------------------------- gdef --------------------------------------
